@@ -781,8 +781,18 @@ func c19LastWrap(t *testing.T, out *vh.Out) {
 			ur := &logical.Request{Operation: logical.UpdateOperation, Path: "sys/wrapping/unwrap", ClientToken: root, Data: map[string]any{"token": resp.WrapInfo.Token}}
 			ur.SetTokenEntry(nil)
 			if uresp, uerr := c.HandleRequest(vhRootCtx(), ur); uerr == nil && uresp != nil {
-				body := fmt.Sprintf("%v", uresp.Data)
-				if strings.Contains(body, "canary-") || strings.Contains(body, "lease_id") {
+				body := ""
+				for _, v := range uresp.Data {
+					switch x := v.(type) {
+					case []byte:
+						body += string(x)
+					case string:
+						body += x
+					default:
+						body += fmt.Sprintf("%v", x)
+					}
+				}
+				if uresp.Secret != nil || strings.Contains(body, "canary-") || strings.Contains(body, "\"lease_id\":\"rec/") {
 					secret = "1"
 				}
 			}
